@@ -6,7 +6,7 @@ Line protocol of the constraint model (C12).  Parsers and token formats: see `QM
 * `fixrot n masses q p`                    → `ok omega p' L' ` (`L'` = angular momentum the code would compute after)
 * `c12trial n cons apply masses q p lastQ lastP ff disp accept nelem {maxAttempts ts checks}*`
 * `c12trial n cons apply masses q p lastQ lastP ff ham accept dt steps kT ndof forced maxAttempts zs checks`
-* `c12trial n cons apply masses q p lastQ lastP ff fb disp`
+* `c12trial n cons apply masses q p lastQ lastP ff fb disp shaped_masses`
                                             → `ok q p lastQ lastP`
 -/
 namespace Constr.IO
@@ -39,9 +39,10 @@ def parseTrial (n : Nat) : List String → Option (Trial n Float)
     let zs ← parseArrs n zs
     let checks ← parseChecks checks
     pure (.ham dt steps kT (Num.ofNat ndof) forced maxAttempts zs checks accept)
-  | ["fb", d] => do
+  | ["fb", d, sh] => do
     let d ← parseArr n d
-    pure (.fb d)
+    let sh ← parseArr n sh
+    pure (.fb d sh)
   | _ => none
 
 def handle : List String → String
